@@ -21,7 +21,7 @@ func init() {
 		ID:    "C01",
 		Level: "model_checking",
 		Rule: "product: enabled set E (non-empty subset of 3 keys quick / 4 keys thorough) x spelling of the stored key {hex, 0x-hex, upper-hex, mixed, and one key stored under two spellings at once} x threshold 1..min(|E|,3 quick / 4 thorough) x message {empty, 116-byte header, burn message} " +
-			"x ALL sequences of 0..T+1 atoms, atoms per key: honest v0/1, legacy v27/28, high-s twin, honest over another message; plus an unknown key, 65 zero bytes, a valid signature with v=2, a 64-byte truncation and a 66-byte padding (misaligning later chunks); " +
+			"x ALL sequences of 0..T+1 atoms, atoms per key: honest v0/1, legacy v27/28, high-s twin, honest over another message, honest signature by the mirror key n-d (same X coordinate, not an attester); plus an unknown key, 65 zero bytes, a valid signature with v=2, a 64-byte truncation and a 66-byte padding (misaligning later chunks); " +
 			"verifier result == reference reading (iff); stateful leg: every (E,T,spelling) reached by enable/threshold transactions and the same atoms submitted through receive-message and replace-message; " +
 			"states = configurations, transitions = verifier/handler executions; distinct_nontrivial = distinct (configuration, atom sequence) pairs whose total length equals 65*T (i.e. that reach signature checking)",
 		Assumptions: []string{"forgery is not attempted: arbitrary byte strings are covered through the atom alphabet and chunk misalignment", "ECDSA/Keccak assumptions as usual",
@@ -57,6 +57,9 @@ func c01Atoms(nkeys int, m0, m1 []byte) []c01Atom {
 			c01Atom{k.Name + ":high-s-twin", HighSTwin(sig), i, true},
 			c01Atom{k.Name + ":over-other-message", k.SignRSV(m1), -1, true},
 		)
+	}
+	for i := 0; i < nkeys && i < 2; i++ {
+		as = append(as, c01Atom{Keys[i].Name + ":mirror-key(n-d)", MirrorKey(Keys[i]).SignRSV(m0), -1, true})
 	}
 	unk := Keys[5].SignRSV(m0)
 	k1 := Keys[0].SignRSV(m0)
